@@ -184,13 +184,7 @@ theorem import_of_geometry (xa : XA α) (d : Nat) (n : Nat → Nat) (m : Mesh) (
       | cons x l' =>
         unfold vdimsSet
         simp only [hl, ne_eq, not_true_eq_false, if_false, hdup, hres, Bool.false_eq_true]
-  have hmap : ¬ (k ≠ 1 ∧ k = m.region.dims.length ∧
-      (match xa.vdimsCoord with | some l => some l | none => Fld.defaultVdims k) = none) := by
-    rintro ⟨h1, -, h3⟩
-    cases hv : xa.vdimsCoord with
-    | some l => rw [hv] at h3; cases h3
-    | none => rw [hv] at h3; exact defaultVdims_ne_none k (by omega) h3
-  obtain ⟨g, hg, hgm, hgk, hga, hgv, hgt⟩ := fieldOf_ok xa m k hvs _ hvset hmap
+  obtain ⟨g, hg, hgm, hgk, hga, hgv, hgt⟩ := fieldOf_ok xa m k hvs _ hvset
   refine ⟨g, ?_, hgm, hgk, by rw [hga.1, hvs, hmn], ?_, hgt, hgv⟩
   · rw [fromXA_eq, hck]
     simp only [Except.bind]
